@@ -429,6 +429,29 @@ func genExtra(r *vlib.R, tier string, emit func(string)) {
 		emit("accept " + strings.Join(ks, ","))
 	}
 	emit("accept -")
+	// the connection cap: bursts below, at and far above it; afterwards the listener is open again
+	emit("conncap new")
+	for i := 0; i < 3; i++ {
+		c := 2 + r.Intn(5)
+		emit(fmt.Sprintf("conncap %d %d", c, vlib.Pick(r, []int{c - 1, c, c + 1, 2*c + 1, 3 * c})))
+	}
+	// the connection's fill buffer: unread tails of every size at every position, incl. flush against its end
+	emit("fill new")
+	for i := 0; i < 10; i++ {
+		end := vlib.Pick(r, []int{4096, 4096, 4095, 3000, 100})
+		unread := vlib.Pick(r, []int{0, 1, 2, 3, 50, 2000, 4094, 4095, 4096})
+		if unread > end {
+			unread = end
+		}
+		emit(fmt.Sprintf("fill %d %d %d", end-unread, end, vlib.Pick(r, []int{1, 40, 5000})))
+	}
+	// outbound address choice by client message id, on both legs
+	emit("dialer new")
+	for _, n := range []int{1, 3} {
+		for _, id := range []int{0, 1, 32767, 32768, 65534, 65535, r.Intn(65536)} {
+			emit(fmt.Sprintf("dialer %d %d %s", n, id, vlib.Pick(r, []string{"tcp", "udp"})))
+		}
+	}
 	emit("tcpclass new")
 	for _, l := range []int{12, 512, 2047, 2048, 2049, 4096, 16384, 65535, 2040 + r.Intn(16)} {
 		emit(fmt.Sprintf("tcpclass %d", l))
